@@ -23,5 +23,5 @@ Universe(N, maxp, ms) == UNION {{[mode |-> m, script |-> s] : s \in ScriptsOf(N,
 ScriptsQuick == Universe(2, 2, Modes) \cup Universe(1, 3, Modes)
 ScriptsFull == Universe(2, 3, Modes)
 ScriptsLive == Universe(1, 2, Modes)
-ScriptsTiny == Universe(1, 2, {"auto"})
+ScriptsTiny == Universe(1, 1, Modes) \cup Universe(1, 2, {"auto"})
 =============================================================================
